@@ -118,3 +118,19 @@ Definition cmp_state (s : afs) (r : abs_result) : list mismatch :=
   concat (map (fun p => match objs s !! fst p with
                         | None => [MExtra (fst p)]
                         | Some o => obj_agree (fst p) o (snd p) end) (r_objs r)).
+
+(* ---------- resource outcome: when is "no space" a believable answer? ---------- *)
+(* upper bound on the data blocks a call may need; NOSPC is accepted only when fewer are free *)
+Definition need_blocks (c : call) : N :=
+  match c with
+  | CWrite _ off cnt _ _ => cnt / BS + 2 + 3          (* data blocks (unaligned ends) + index blocks *)
+  | CCreate _ _ _ => 1                                (* the directory may grow *)
+  | CMkdir _ _ => 2
+  | CSymlink _ _ t => lenN t / BS + 2 + 1
+  | CRename _ _ _ _ => 1
+  | _ => 0
+  end.
+Definition needs_inode (c : call) : bool :=
+  match c with CCreate _ _ _ | CMkdir _ _ | CSymlink _ _ _ => true | _ => false end.
+Definition nospace_plausible (c : call) (free_blocks free_inodes : N) : bool :=
+  (free_blocks <? need_blocks c) || (needs_inode c && (free_inodes =? 0)).
